@@ -1,2 +1,14 @@
 import Solvor.Cut.Theorems
 /-! Axiom audit for the property theorems of C17 (run by every check). -/
+#print axioms Solvor.Cut.plan_checker
+#print axioms Solvor.Cut.plan_checker_cs
+#print axioms Solvor.Cut.plan_checker_cols
+#print axioms Solvor.Cut.minRolls_correct
+#print axioms Solvor.Cut.cs_optimum_correct
+#print axioms Solvor.Cut.cs_optimum_exists
+#print axioms Solvor.Cut.cols_optimum_correct
+#print axioms Solvor.Cut.dualFeasible_iff
+#print axioms Solvor.Cut.dual_bound
+#print axioms Solvor.Cut.dual_bound_le_opt
+#print axioms Solvor.Cut.dual_bound_cols
+#print axioms Solvor.Cut.optimal_claim_sound
